@@ -57,6 +57,10 @@ type Env struct {
 	// Hostile: prefer arguments that do NOT meet the precondition (missing attribute
 	// names, wrong pool sizes) — used by C02's edge-input sweep.
 	Hostile bool
+	// Large: the receiver has ≥ 10^4 vertices; arguments whose cost grows with the
+	// number of neighbours inside a radius (implicit weld distance) stay small so that
+	// every operation remains linear in the mesh size.
+	Large bool
 }
 
 // Call is one fully parameterised invocation.
@@ -886,6 +890,9 @@ func All() []Op {
 	add(Op{Name: "meshops.SmoothNormalsImplicitWeld", Group: "meshops", Kind: Derive, Topo: isTri, Make: func(r *rand.Rand, m *modeling.Mesh, e *Env) Call {
 		rec := *m
 		d := []float64{0, 1e-6, 0.01, 0.5, 3}[r.Intn(5)]
+		if e.Large {
+			d = []float64{0, 1e-9, 1e-6}[r.Intn(3)]
+		}
 		if !e.Valid && r.Intn(12) == 0 {
 			d = -0.5
 		}
